@@ -157,9 +157,24 @@ def one_trace(cfg, table, seeds, k, target, T):
     return {"hdr": hdr, "ev": evs}, det, spikes
 
 
+def conv_trainable() -> bool:
+    """Conv2D.presyn_receptive raised for every trainer on some trees (a C05/C08 matter, not C12)."""
+    try:
+        cfg = dict(layer="serial", conn="conv", syn="delta", neuron="lif", trainer="stdp", delayed=False, inplace=False)
+        b = Bundle(cfg, 1)
+        xs, ls, rs = make_inputs(b, 1, 1)
+        b.step(xs[0], ls[0], rs[0])
+        return True
+    except Exception:
+        return False
+
+
+CONV_TRAINABLE = conv_trainable()
+
+
 def valid(cfg):
-    if cfg["conn"] == "conv" and cfg["trainer"] != "none":
-        return False      # Conv2D.presyn_receptive raises for every trainer (not a C12 matter)
+    if cfg["conn"] == "conv" and cfg["trainer"] != "none" and not CONV_TRAINABLE:
+        return False
     if cfg["trainer"] in ("dastdp", "dastdpd") and not cfg["delayed"]:
         return False      # delay-adjusted rules need a connection with delays
     if cfg["trainer"] == "stdp-delayed" and not cfg["delayed"]:
@@ -194,10 +209,10 @@ def choose_configs(rng, thorough):
     if not thorough:
         # quick tier: the base, every layer kind, every trainer, and a sample of the rest
         keep = [c for c in cfgs if c == base or c["layer"] != "serial" or c["trainer"] not in ("stdp",)
-                or c.get("update_every") or c["inplace"]]
+                or c.get("update_every") or c["inplace"] or c["conn"] != "dense"]
         rest = [c for c in cfgs if c not in keep]
         rng.shuffle(rest)
-        cfgs = keep + rest[:5]
+        cfgs = keep + rest[:3]
     return cfgs
 
 
@@ -226,9 +241,16 @@ def run_traces(chk, rng, thorough):
     traces, details = [], []
     spiking = 0
     tables = {}
-    for ci, cfg in enumerate(cfgs):
+    skipped = []
+    for ci, cfg in enumerate(list(cfgs)):
         seed = rng.randrange(1, 10 ** 6)
-        table = derive_table(cfg, seed)
+        try:
+            table = derive_table(cfg, seed)
+        except Exception as e:
+            # the model itself cannot be stepped on this tree: nothing to checkpoint (not a C12 matter)
+            skipped.append({"cfg": cfg, "raised": type(e).__name__, "message": str(e)[:200]})
+            cfgs.remove(cfg)
+            continue
         tables[json.dumps(cfg, sort_keys=True)] = table
         ks = list(range(0, T + 1))
         for k in ks:
@@ -242,6 +264,12 @@ def run_traces(chk, rng, thorough):
                 if spikes:
                     spiking += 1
                     chk.nontrivial.add((json.dumps(cfg, sort_keys=True), k, target))
+    if skipped:
+        chk.extra["configurations_not_runnable"] = skipped
+        chk.note(f"{len(skipped)} configurations cannot be stepped on this tree and were left out: "
+                 + "; ".join(sorted({f"{x['cfg']['layer']}/{x['cfg']['conn']}/{x['cfg']['trainer']}: {x['raised']}" for x in skipped})))
+    if len(skipped) > len(cfgs):
+        raise MachineryFailure(f"most configurations cannot be stepped ({len(skipped)} of {len(skipped) + len(cfgs)})")
     if spiking < len(traces) // 2:
         raise MachineryFailure(f"checkpoint runs are mostly silent ({spiking}/{len(traces)}): vacuous")
     differing_targets = sum(1 for t in traces if t["hdr"].get("differs_before_load"))
@@ -325,6 +353,8 @@ def run(tier: str, seed: int) -> int:
                          "distinct and non-trivial when it is a distinct (configuration, k, target) whose runs spiked.")
     chk.assumptions.append("a checkpoint taken before the first step (k = 0) is loaded into an equally unshaped fresh target; "
                            "targets with pending accumulated updates are phase-aligned with the checkpoint")
+    if not CONV_TRAINABLE:
+        chk.note("Conv2D cells cannot be trained on this tree (presyn_receptive raises): conv is checkpointed without trainer")
     run_protocol_mc(chk, thorough)
     traces, rej = run_traces(chk, rng, thorough)
     canary(chk, traces, rej)
